@@ -144,7 +144,7 @@ def run(ctx):
     ctx.touch(sn)
     keys = [n for n in own_nodes(sn.node) if isinstance(n, ast.Tuple) and len(n.elts) == 2 and isinstance(n.elts[1], ast.Call)
             and norm(n.elts[1].func).endswith(".get") and n.elts[1].args and isinstance(n.elts[1].args[0], ast.Constant) and n.elts[1].args[0].value == "track"]
-    ctx.floor("TRACKKEY", "(index, track) tuples", len(keys), 6)
+    ctx.floor("TRACKKEY", "(index, track) tuples", len(keys), 2)
     for kx in keys:
         i = kx.elts[0]
         # i must be the first target of an enclosing enumerate
